@@ -82,7 +82,7 @@ Record dir_obs := {
 Inductive out_obs :=
 | BVersion
 | BTranslators (names : list str)
-| BRegexes (excl incl : list str)
+| BRegexes (pats : list str)                        (* the patterns printed by --default-regexes, headings dropped *)
 | BUsage
 | BRun (dirs : list dir_obs) (raised : option err).
 
@@ -146,7 +146,7 @@ Definition out_matches (m : outputs) (o : out_obs) : bool :=
   match m, o with
   | OVersion _, BVersion => true
   | OTranslators ts, BTranslators names => strs_eqb (map fst ts) names
-  | ORegexes e i, BRegexes e' i' => strs_eqb e e' && strs_eqb i i'
+  | ORegexes e i, BRegexes l => strs_eqb (e ++ i) l || strs_eqb (i ++ e) l
   | OUsage, BUsage => true
   | ORun ds r, BRun ds' r' => list_eqb dir_matches ds ds' && opt_eqb err_eqb r r'
   | _, _ => false
@@ -208,7 +208,7 @@ Record inject_case := {
   j_keys : list (clsn * list str);        (* keys of every valid class dictionary, in order, before *)
   j_cls : clsn; j_key : str; j_values : list str; j_type : option str; j_force : bool;
   (* observation *)
-  j_rc : res Z;                            (* exit status, or the exception *)
+  j_refused : bool;                        (* non-zero exit status or an exception (the property names neither) *)
   j_saved : bool;                          (* the file was rewritten *)
   j_keys_after : list (clsn * list str);
   j_value_after : option stored }.         (* the value found under (class, key) afterwards, when it is one inject can store *)
@@ -228,25 +228,26 @@ Definition ext_of (c : inject_case) : mext xval :=
                         end |}.
 
 Definition keys_of (e : mext xval) : list (clsn * list str) := map (fun c => (c, map fst (x_dict e c))) (x_valid e).
-Definition keys_eqb := list_eqb (fun (x y : clsn * list str) => clsn_eqb (fst x) (fst y) && strs_eqb (snd x) (snd y)).
+(** class dictionaries are compared as maps: same classes in order, same key SETS *)
+Definition same_keys (a b : list str) : bool :=
+  forallb (fun k => existsb (str_eqb k) b) a && forallb (fun k => existsb (str_eqb k) a) b.
+Definition keys_eqb := list_eqb (fun (x y : clsn * list str) => clsn_eqb (fst x) (fst y) && same_keys (snd x) (snd y)).
 
 Definition check_inject (c : inject_case) : bool :=
-  match inject XStored (ext_of c) (j_cls c) (j_key c) (j_values c) (j_type c) (j_force c), j_rc c with
-  | Err e, Err e' => err_eqb e e' && negb (j_saved c)
-  | Ok (rc, None), Ok rc' => Z.eqb rc rc' && negb (j_saved c) && keys_eqb (keys_of (ext_of c)) (j_keys_after c)
-  | Ok (rc, Some e'), Ok rc' =>
-      Z.eqb rc rc' && j_saved c && keys_eqb (keys_of e') (j_keys_after c)
+  match inject XStored (ext_of c) (j_cls c) (j_key c) (j_values c) (j_type c) (j_force c) with
+  | Ok (0%Z, Some e') =>
+      negb (j_refused c) && j_saved c && keys_eqb (keys_of e') (j_keys_after c)
       && match dict_get (j_key c) (x_dict e' (j_cls c)), j_value_after c with
          | Some (XStored s), Some s' => stored_eqb s s'
          | _, _ => false
          end
-  | _, _ => false
+  | _ => j_refused c && negb (j_saved c) && keys_eqb (keys_of (ext_of c)) (j_keys_after c)
   end.
 
 Inductive nitool_case :=
 | NCInject (c : inject_case)
 | NCSplitNames (src : str) (n : nat) (obs : list str)          (* default names of n parts *)
-| NCMergeOrder (keys : list Z) (obs : list nat)                 (* --sort: the order in which the inputs were merged *)
+| NCMergeOrder (sorted : bool) (keys : list Z) (obs : list nat)  (* the order in which the inputs were merged (--sort or not) *)
 | NCLookup (index : option str) (r : option str) (out : str)   (* get_meta returned r (None, or Some (str value)); captured stdout *)
 | NCOracleOnly.                                                 (* dump/embed, file equality: judged by the oracle *)
 
@@ -277,7 +278,8 @@ Definition check_nitool (c : nitool_case) : bool :=
   | NCInject j => check_inject j
   | NCSplitNames src n obs =>
       let '(dir, fn) := path_split src in strs_eqb (default_split_names dir fn 0 n) obs
-  | NCMergeOrder keys obs => list_eqb Nat.eqb (map fst (sort_by snd (number_from 0 keys))) obs
+  | NCMergeOrder sorted keys obs =>
+      list_eqb Nat.eqb (map fst (if sorted then sort_by snd (number_from 0 keys) else number_from 0 keys)) obs
   | NCLookup index r out => match lookup_stdout index r with Ok s => str_eqb s out | Err _ => false end
   | NCOracleOnly => true
   end.
@@ -291,7 +293,7 @@ Definition show_nitool (c : nitool_case) :=
       | Err e => (Err e, [], None, [], [])
       end
   | NCSplitNames src n _ => let '(dir, fn) := path_split src in (Ok 0%Z, [], None, default_split_names dir fn 0 n, [])
-  | NCMergeOrder keys _ => (Ok 0%Z, [], None, [], map fst (sort_by snd (number_from 0 keys)))
+  | NCMergeOrder sorted keys _ => (Ok 0%Z, [], None, [], map fst (if sorted then sort_by snd (number_from 0 keys) else number_from 0 keys))
   | NCLookup index r _ => (Ok 0%Z, [], None, match lookup_stdout index r with Ok s => [s] | Err _ => [] end, [])
   | NCOracleOnly => (Ok 0%Z, [], None, [], [])
   end.
